@@ -648,6 +648,8 @@ def _do(OMD, regs, op):
 def run_impl(case):
     if case.get("cls", "OMD") == "QPD":
         from boltons.urlutils import QueryParamDict as OMD      # inherits dictutils.OrderedMultiDict
+    elif case.get("cls") == "FIOMD":
+        from boltons.dictutils import FastIterOrderedMultiDict as OMD   # skip-list variant (see notes)
     else:
         from boltons.dictutils import OrderedMultiDict as OMD
     regs = [OMD(), OMD()]
